@@ -106,21 +106,90 @@ Proof.
   apply IH.
 Qed.
 
+Lemma window_clip s e M pages : forall pfn,
+  pfn + N.of_nat (length pages) <= M ->
+  window s (if e <? M then e else M) pfn pages = window s e pfn pages.
+Proof.
+  induction pages as [| p t IH]; intros pfn H; [reflexivity |].
+  cbn [window length] in *. rewrite IH by lia. f_equal.
+  destruct (N.ltb_spec e M).
+  - reflexivity.
+  - destruct (N.ltb_spec pfn M); [| lia]. destruct (N.ltb_spec pfn e); [reflexivity | lia].
+Qed.
+
+Lemma nth_error_window s e pages : forall b k,
+  nth_error (window s e b pages) k =
+  match nth_error pages k with
+  | Some p => Some (if (s <=? b + N.of_nat k) && (b + N.of_nat k <? e) then p else None)
+  | None => None
+  end.
+Proof.
+  induction pages as [| p t IH]; intros b k; [destruct k; reflexivity |].
+  destruct k; cbn [window nth_error].
+  - now rewrite N.add_0_r.
+  - rewrite IH. replace (b + 1 + N.of_nat k) with (b + N.of_nat (S k)) by lia. reflexivity.
+Qed.
+
+Lemma window_length s e pages : forall b, length (window s e b pages) = length pages.
+Proof. induction pages as [| p t IH]; intro b; [reflexivity |]. cbn [window length]. now rewrite IH. Qed.
+
+(** the part of [dd_read_page] that follows the descriptor lookup *)
+Definition page_via (rd : N -> N -> N -> bytes) (decompress : N -> bytes -> option bytes)
+           (be : bool) (pgsz fidx pd_pos : N) : res bytes :=
+  let pd := rd fidx pd_pos PAGE_DESC_SIZE in
+  let offset := get64 be pd 0 in
+  let size := get32 be pd 8 in
+  let flags := get32 be pd 12 in
+  if has flags DH_COMPRESSED then
+    let chunk := rd fidx offset size in
+    let via (bit : N) :=
+      match decompress bit chunk with
+      | Some out => if len out =? pgsz then Ok out else Err ERR_CORRUPT
+      | None => Err ERR_CORRUPT
+      end in
+    if has flags DH_ZLIB then via DH_ZLIB
+    else if has flags DH_LZO then Err ERR_NOTIMPL
+    else if has flags DH_SNAPPY then via DH_SNAPPY
+    else via DH_ZSTD
+  else if negb (size =? pgsz) then Err ERR_CORRUPT
+  else Ok (rd fidx offset size).
+
+Definition hit_of (maps : list pfn_file_map) (pfn : N) : option (pfn_file_map * N) :=
+  match find_pfn_file_map maps pfn with
+  | Some m => if pm_start m <=? pfn
+              then match pfn_to_pdpos m pfn with Some p => Some (m, p) | None => None end
+              else None
+  | None => None
+  end.
+
+Lemma dd_read_page_unfold rd decompress st z pfn :
+  dd_read_page rd decompress st z pfn =
+  if dd_max_pfn st <=? pfn then Err ERR_NODATA else
+  match hit_of (dd_maps st) pfn with
+  | None => if z then Ok (zeros (dd_page_size st)) else Err ERR_NODATA
+  | Some (m, pd_pos) => page_via rd decompress (dd_be st) (dd_page_size st) (pm_fidx m) pd_pos
+  end.
+Proof. reflexivity. Qed.
+
+(** * one file of a dump: [fi] is its index in the file set *)
 Section Roundtrip.
   Variable decompress : N -> bytes -> option bytes.
+  Variable rd : N -> N -> N -> bytes.
+  Variable fi : N.
   Variable l : dd_layout.
   Variable pages : list (option dd_page).
   Variable img : image.
   Hypothesis Hwf : dd_wf l img.
   Hypothesis Hst : Forall2 (stores decompress) pages img.
   Hypothesis Hsize : len (encode_dd l pages) < 2^64.
+  Hypothesis HrdF : forall off n, rd fi off n = read_of (encode_dd l pages) off n.
 
   Let F := encode_dd l pages.
   Let pgsz := dl_page_size l.
-  Let rd := read_files [F].
   Let bmbytes := dl_bmp_blocks l * pgsz.
   Let descoff := (1 + dl_sub_blocks l + bitmap_blocks l) * pgsz.
-  Let data_start := descoff + 24 * count_some pages + dl_data_gap l.
+  Let own := window (win_start l) (win_end l) 0 pages.
+  Let data_start := descoff + 24 * count_some own + dl_data_gap l.
   Let bits := map (@is_some dd_page) pages.
   Let bm2 := bits_to_bytes false (N.to_nat bmbytes) bits.
 
@@ -133,15 +202,8 @@ Section Roundtrip.
   Lemma pages_len_le : N.of_nat (length pages) <= dl_max_mapnr l.
   Proof. rewrite pages_len. apply (wf_img_len _ _ Hwf). Qed.
 
-  Lemma own_eq : window (win_start l) (win_end l) 0 pages = pages.
-  Proof.
-    unfold win_start, win_end. rewrite (wf_nosplit _ _ Hwf).
-    apply window_all; [lia |].
-    pose proof pages_len_le. pose proof (wf_mapnr64 _ _ Hwf). lia.
-  Qed.
-
-  Lemma rd_eq fidx off n : fidx = 0 -> rd fidx off n = read_of F off n.
-  Proof. intros ->. reflexivity. Qed.
+  Lemma rd_eq fidx off n : fidx = fi -> rd fidx off n = read_of F off n.
+  Proof. intros ->. apply HrdF. Qed.
 
   (** the sections of the file *)
   Definition S0 := fit pgsz (enc_header l).
@@ -150,13 +212,11 @@ Section Roundtrip.
   Definition S2 := if dl_two_bitmaps l
                    then bits_to_bytes false (N.to_nat bmbytes) (orb_lists bits (dl_mem_extra l)) ++ bm2
                    else bm2.
-  Definition S3 := enc_descs (dl_be l) pages data_start.
-  Definition S5 := enc_data pages.
+  Definition S3 := enc_descs (dl_be l) own data_start.
+  Definition S5 := enc_data own.
 
   Lemma F_sections : F = S0 ++ S1 ++ S2 ++ S3 ++ zeros (dl_data_gap l) ++ S5.
-  Proof.
-    unfold F, encode_dd. rewrite own_eq. reflexivity.
-  Qed.
+  Proof. reflexivity. Qed.
 
   Lemma len_bits_to_bytes msb0 n bs : len (bits_to_bytes msb0 n bs) = N.of_nat n.
   Proof.
@@ -174,7 +234,7 @@ Section Roundtrip.
     - rewrite len_app, len_bits_to_bytes, len_bm2. unfold bmbytes. lia.
     - apply len_bm2.
   Qed.
-  Lemma len_S3 : len S3 = 24 * count_some pages.
+  Lemma len_S3 : len S3 = 24 * count_some own.
   Proof. apply len_enc_descs. Qed.
 
   Lemma len_S012 : len (S0 ++ S1 ++ S2) = descoff.
@@ -215,14 +275,13 @@ Section Roundtrip.
       rewrite <- len_bm2. apply read_of_exact.
   Qed.
 
-  (** the state [dd_open] is expected to build *)
-  Definition the_map : pfn_file_map :=
-    {| pm_fidx := 0; pm_start := 0; pm_end := KDUMP_PFN_MAX;
-       pm_regions := regions_from_bitmap false bm2 0 (bmbytes * 8) descoff PAGE_DESC_SIZE |}.
+  (** the map [do_header] is expected to build for this file: its window, and
+      the runs of dumped pages inside the window *)
+  Definition lim : N := if win_end l <? bmbytes * 8 then win_end l else bmbytes * 8.
 
-  Definition expected_state : dd_state :=
-    {| dd_be := dl_be l; dd_ptr_size := if dl_64 l then 8 else 4; dd_page_size := pgsz;
-       dd_max_pfn := dl_max_mapnr l; dd_maps := [the_map] |}.
+  Definition the_map : pfn_file_map :=
+    {| pm_fidx := fi; pm_start := win_start l; pm_end := win_end l;
+       pm_regions := regions_from_bitmap false bm2 (win_start l) lim descoff PAGE_DESC_SIZE |}.
 
   Lemma bits_len : (length bits <= 8 * N.to_nat bmbytes)%nat.
   Proof.
@@ -236,11 +295,17 @@ Section Roundtrip.
     unfold bits in H. rewrite nth_overflow in H by (rewrite map_length; lia). discriminate.
   Qed.
 
-  (** descriptor position of a page frame *)
+  Lemma own_clip : window (win_start l) lim 0 pages = own.
+  Proof.
+    unfold lim, own. apply window_clip.
+    pose proof bits_len as H. unfold bits in H. rewrite map_length in H. lia.
+  Qed.
+
+  (** descriptor position of a page frame: pages outside the window have none *)
   Lemma pdpos_spec pfn :
     pfn_to_pdpos the_map pfn =
-    if nth (N.to_nat pfn) bits false
-    then Some (descoff + 24 * count_some (firstn (N.to_nat pfn) pages))
+    if nth (N.to_nat pfn) bits false && (win_start l <=? pfn) && (pfn <? win_end l)
+    then Some (descoff + 24 * count_some (firstn (N.to_nat pfn) own))
     else None.
   Proof.
     unfold pfn_to_pdpos, the_map. cbn [pm_regions]. unfold regions_from_bitmap.
@@ -250,7 +315,7 @@ Section Roundtrip.
                           then Some (rg_pos rgn + (pfn - rg_pfn rgn) * PAGE_DESC_SIZE) else None
             | None => None end)
       with (pos_of PAGE_DESC_SIZE (find_lin rs pfn) pfn).
-    destruct (runs_lookup PAGE_DESC_SIZE 0 (bmbytes * 8) (bits_of_bytes false bm2) 0 descoff None
+    destruct (runs_lookup PAGE_DESC_SIZE (win_start l) lim (bits_of_bytes false bm2) 0 descoff None
                 ltac:(cbn; lia)) as [_ H].
     specialize (H (N.to_nat pfn)). rewrite N2Nat.id, N.add_0_l in H. rewrite H. clear H.
     unfold bm2. rewrite unpack_bits_to_bytes, (padded_short _ _ bits_len).
@@ -259,9 +324,12 @@ Section Roundtrip.
     destruct (nth (N.to_nat pfn) bits false) eqn:Hb; cbn [andb]; [| reflexivity].
     pose proof (nth_bits _ Hb) as Hlt. pose proof bits_len as Hbl. unfold bits in Hbl.
     rewrite map_length in Hbl.
-    destruct (N.leb_spec 0 pfn); [| lia]. destruct (N.ltb_spec pfn (bmbytes * 8)); [| lia].
-    cbn [andb]. unfold bits. rewrite rank_in_pages.
-    rewrite window_all by lia. f_equal. unfold PAGE_DESC_SIZE. lia.
+    destruct (N.leb_spec (win_start l) pfn); cbn [andb]; [| reflexivity].
+    assert (Hl : (pfn <? lim) = (pfn <? win_end l)).
+    { unfold lim. destruct (N.ltb_spec (win_end l) (bmbytes * 8)); [reflexivity |].
+      destruct (N.ltb_spec pfn (bmbytes * 8)); [| lia]. destruct (N.ltb_spec pfn (win_end l)); [reflexivity | lia]. }
+    rewrite Hl. destruct (pfn <? win_end l); [| reflexivity].
+    unfold bits. rewrite rank_in_pages, own_clip. f_equal. unfold PAGE_DESC_SIZE. lia.
   Qed.
 
   Lemma land_39 f : (N.land f 39 =? 0) =
@@ -277,41 +345,52 @@ Section Roundtrip.
     repeat (apply N.lor_eq_0_iff in E; destruct E as [? E]); congruence.
   Qed.
 
-  Theorem read_page_spec zero_excluded pfn :
-    dd_read_page rd decompress expected_state zero_excluded pfn =
-    spec_read_page img pgsz (dl_max_mapnr l) zero_excluded pfn.
+  (** a page frame outside the window, or one the dump does not contain, has
+      no descriptor in this file *)
+  Lemma pdpos_none pfn :
+    match nth_error pages (N.to_nat pfn) with Some (Some _) => False | _ => True end ->
+    pfn_to_pdpos the_map pfn = None.
   Proof.
-    unfold dd_read_page, spec_read_page. cbn [dd_max_pfn dd_page_size dd_maps dd_be expected_state].
-    destruct (N.leb_spec (dl_max_mapnr l) pfn) as [| Hpfn]; [reflexivity |].
-    pose proof (wf_mapnr64 _ _ Hwf) as Hm64.
-    cbn [find_pfn_file_map]. cbn [pm_end the_map].
-    destruct (N.ltb_spec pfn KDUMP_PFN_MAX) as [_ | Hbad]; [| unfold KDUMP_PFN_MAX in Hbad; lia].
-    change (pm_start the_map) with 0. destruct (N.leb_spec 0 pfn); [| lia].
-    rewrite pdpos_spec.
+    intro H. rewrite pdpos_spec. unfold bits. rewrite nth_is_some.
+    destruct (nth_error pages (N.to_nat pfn)) as [[p |] |]; [contradiction | reflexivity | reflexivity].
+  Qed.
+
+  (** a stored page frame inside the window: descriptor and data are this
+      file's, and they give the page *)
+  Theorem page_in_window pfn c :
+    win_start l <= pfn < win_end l ->
+    nth_error img (N.to_nat pfn) = Some (Some c) ->
+    exists pos, pfn_to_pdpos the_map pfn = Some pos /\
+                page_via rd decompress (dl_be l) pgsz fi pos = Ok c.
+  Proof.
+    intros [Hws Hwe] Hc. rewrite pdpos_spec.
     pose proof (Forall2_nth_error _ _ _ Hst (N.to_nat pfn)) as Hrel.
-    unfold bits at 1. rewrite nth_is_some.
-    destruct (nth_error pages (N.to_nat pfn)) as [[p |] |] eqn:Hp.
-    2:{ destruct (nth_error img (N.to_nat pfn)) as [[c |] |]; try contradiction; reflexivity. }
-    2:{ destruct (nth_error img (N.to_nat pfn)) as [[c |] |]; try contradiction; reflexivity. }
-    destruct (nth_error img (N.to_nat pfn)) as [[c |] |] eqn:Hc; try contradiction.
+    unfold bits at 1. rewrite nth_is_some. rewrite Hc in Hrel.
+    destruct (nth_error pages (N.to_nat pfn)) as [[p |] |] eqn:Hp; try contradiction.
+    destruct (N.leb_spec (win_start l) pfn); [| lia]. destruct (N.ltb_spec pfn (win_end l)); [| lia].
+    cbn [andb]. eexists. split; [reflexivity |].
     destruct Hrel as [Hflags [Hplen Hmeth]].
-    change (pm_fidx the_map) with 0.
+    assert (Hown : nth_error own (N.to_nat pfn) = Some (Some p)).
+    { unfold own. rewrite nth_error_window, Hp, N2Nat.id, N.add_0_l.
+      destruct (N.leb_spec (win_start l) pfn); [| lia]. destruct (N.ltb_spec pfn (win_end l)); [| lia].
+      reflexivity. }
     assert (Hcok : len c = pgsz).
     { pose proof (wf_pages _ _ Hwf) as Hall. rewrite Forall_forall in Hall.
       specialize (Hall _ (nth_error_In _ _ Hc)). cbn in Hall. apply Hall. }
-    set (rank := count_some (firstn (N.to_nat pfn) pages)).
-    set (doff := data_start + len (enc_data (firstn (N.to_nat pfn) pages))).
+    set (rank := count_some (firstn (N.to_nat pfn) own)).
+    set (doff := data_start + len (enc_data (firstn (N.to_nat pfn) own))).
+    unfold page_via. cbn zeta.
     (* the descriptor *)
-    assert (Hpd : rd 0 (descoff + 24 * rank) PAGE_DESC_SIZE = enc_desc (dl_be l) doff p).
+    assert (Hpd : rd fi (descoff + 24 * rank) PAGE_DESC_SIZE = enc_desc (dl_be l) doff p).
     { rewrite rd_eq by reflexivity. rewrite rd_desc.
-      destruct (read_desc (dl_be l) pages data_start (zeros (dl_data_gap l) ++ S5) _ _ Hp) as [rest' E].
+      destruct (read_desc (dl_be l) own data_start (zeros (dl_data_gap l) ++ S5) _ _ Hown) as [rest' E].
       unfold S3. rewrite E. unfold rank, PAGE_DESC_SIZE.
-      rewrite <- (len_enc_descs (dl_be l) (firstn (N.to_nat pfn) pages) data_start).
+      rewrite <- (len_enc_descs (dl_be l) (firstn (N.to_nat pfn) own) data_start).
       rewrite <- (len_enc_desc (dl_be l) doff p). apply read_of_section. }
     rewrite Hpd.
     (* where the data is *)
     assert (Hdata : doff + len (dp_payload p) <= len F).
-    { destruct (read_data pages [] _ _ Hp) as [rest' E]. rewrite app_nil_r in E.
+    { destruct (read_data own [] _ _ Hown) as [rest' E]. rewrite app_nil_r in E.
       rewrite F_sections, !len_app, len_S0, len_S1, len_S2, len_S3, len_zeros.
       unfold S5. rewrite E, !len_app. unfold doff, data_start, descoff. lia. }
     assert (HsizeF : len F < 2^64) by exact Hsize.
@@ -320,9 +399,9 @@ Section Roundtrip.
     rewrite (get32_flds _ _ 8 (len (dp_payload p))) by (try reflexivity; cbn; lia).
     rewrite (get32_flds _ _ 12 (dp_flags p)) by (try reflexivity; cbn; lia).
     (* the stored bytes *)
-    assert (Hchunk : rd 0 doff (len (dp_payload p)) = dp_payload p).
+    assert (Hchunk : rd fi doff (len (dp_payload p)) = dp_payload p).
     { rewrite rd_eq by reflexivity. unfold doff. rewrite rd_data.
-      destruct (read_data pages [] _ _ Hp) as [rest' E]. rewrite app_nil_r in E.
+      destruct (read_data own [] _ _ Hown) as [rest' E]. rewrite app_nil_r in E.
       unfold S5. rewrite E. apply read_of_section. }
     rewrite Hchunk.
     unfold has, DH_COMPRESSED, DH_ZLIB, DH_LZO, DH_SNAPPY, DH_ZSTD.
@@ -355,7 +434,7 @@ Section Roundtrip.
   (** a 32-bit header field, read in either byte order *)
   Lemma hdr_field be' n off v :
     fld_at (header_flds l) off = Some (F32 v) -> off + 4 <= n ->
-    get32 be' (rd 0 0 n) off = get be' (put32 (dl_be l) v).
+    get32 be' (rd fi 0 n) off = get be' (put32 (dl_be l) v).
   Proof.
     intros Hf Hn. rewrite rd_eq by reflexivity. rewrite get32_read by assumption.
     destruct F_hdr as [rest E]. rewrite E. rewrite N.add_0_l.
@@ -365,7 +444,7 @@ Section Roundtrip.
 
   Lemma hdr_field_ok n off v :
     fld_at (header_flds l) off = Some (F32 v) -> off + 4 <= n -> v < 2^32 ->
-    get32 (dl_be l) (rd 0 0 n) off = v.
+    get32 (dl_be l) (rd fi 0 n) off = v.
   Proof.
     intros Hf Hn Hv. rewrite (hdr_field _ _ _ _ Hf Hn). unfold put32. now apply get_put.
   Qed.
@@ -427,7 +506,7 @@ Section Roundtrip.
   Lemma sub_read n off k :
     1 <= dl_version l -> off + k <= n ->
     exists rest,
-      sub (rd 0 pgsz n) off k = read_of (enc_flds (dl_be l) (sub_hdr_flds l) ++ rest) off k.
+      sub (rd fi pgsz n) off k = read_of (enc_flds (dl_be l) (sub_hdr_flds l) ++ rest) off k.
   Proof.
     intros Hv Hn. destruct (F_sub Hv) as [rest E]. exists rest.
     rewrite rd_eq by reflexivity. rewrite sub_read_of by assumption.
@@ -437,7 +516,7 @@ Section Roundtrip.
   Lemma sub_field32 be' n off v :
     1 <= dl_version l ->
     fld_at (sub_hdr_flds l) off = Some (F32 v) -> off + 4 <= n ->
-    get32 be' (rd 0 pgsz n) off = get be' (put32 (dl_be l) v).
+    get32 be' (rd fi pgsz n) off = get be' (put32 (dl_be l) v).
   Proof.
     intros Hv Hf Hn. unfold get32. destruct (sub_read n off 4 Hv Hn) as [rest ->].
     pose proof (read_fld (dl_be l) (sub_hdr_flds l) rest off (F32 v) Hf) as R.
@@ -447,7 +526,7 @@ Section Roundtrip.
   Lemma sub_field64 n off v :
     1 <= dl_version l ->
     fld_at (sub_hdr_flds l) off = Some (F64 v) -> off + 8 <= n -> v < 2^64 ->
-    get64 (dl_be l) (rd 0 pgsz n) off = v.
+    get64 (dl_be l) (rd fi pgsz n) off = v.
   Proof.
     intros Hv Hf Hn Hlt. unfold get64. destruct (sub_read n off 8 Hv Hn) as [rest ->].
     now apply get64_fld.
@@ -458,35 +537,99 @@ Section Roundtrip.
 
   Definition shn : N := if dl_64 l then 104 else 96.
 
-  Lemma split_field_zero k :
+  Lemma split_field k :
     1 <= dl_version l -> (if dl_64 l then k = SH64 else k <> SH64) ->
-    get32 false (rd 0 pgsz shn) (sh_split k) = 0.
+    negb (get32 false (rd fi pgsz shn) (sh_split k) =? 0) = (2 <=? dl_version l) && dl_split l.
   Proof.
-    intros Hv Hk. pose proof (wf_nosplit _ _ Hwf) as Hns.
-    assert (Hz : forall x, (if x <=? dl_version l then 0 else 0) = 0) by (intro x; now destruct (x <=? dl_version l)).
-    unfold shn. destruct (dl_64 l) eqn:H64.
-    - subst k. cbn [sh_split]. erewrite (sub_field32 false 104 12); [apply get_put32_zero | assumption | | cbn; lia].
-      unfold sub_hdr_flds. rewrite H64, Hns. cbn. now rewrite Hz.
-    - assert (Hs : sh_split k = 8) by (destruct k; [reflexivity | reflexivity | contradiction]).
-      rewrite Hs.
-      erewrite (sub_field32 false 96 8); [apply get_put32_zero | assumption | | cbn; lia].
-      unfold sub_hdr_flds. rewrite H64, Hns. destruct (dl_pad l); cbn; now rewrite Hz.
+    intros Hv Hk.
+    set (v := if 2 <=? dl_version l then (if dl_split l then 1 else 0) else 0).
+    assert (E : get32 false (rd fi pgsz shn) (sh_split k) = get false (put32 (dl_be l) v)).
+    { unfold shn. destruct (dl_64 l) eqn:H64.
+      - subst k. cbn [sh_split]. apply (sub_field32 false 104 12); [assumption | | cbn; lia].
+        unfold sub_hdr_flds. rewrite H64. reflexivity.
+      - assert (Hs : sh_split k = 8) by (destruct k; [reflexivity | reflexivity | contradiction]).
+        rewrite Hs. apply (sub_field32 false 96 8); [assumption | | cbn; lia].
+        unfold sub_hdr_flds. rewrite H64. destruct (dl_pad l); reflexivity. }
+    rewrite E. unfold v. destruct (2 <=? dl_version l); destruct (dl_split l); destruct (dl_be l); reflexivity.
+  Qed.
+
+  Lemma since_ge a x : a <= dl_version l -> (if a <=? dl_version l then x else 0) = x.
+  Proof. intro H. destruct (N.leb_spec a (dl_version l)); [reflexivity | lia]. Qed.
+
+  (** the 64-bit fields that header_version 6 added *)
+  Lemma v6_field off v :
+    6 <= dl_version l -> v < 2^64 ->
+    (forall b64 bpad, dl_64 l = b64 -> dl_pad l = bpad ->
+       fld_at (sub_hdr_flds l) (off (if b64 then SH64 else if bpad then SH32pad else SH32pack)) =
+       Some (F64 v)) ->
+    (forall k, off k + 8 <= sh_size k) ->
+    get64 (dl_be l) (rd fi pgsz shn) (off layout_kind) = v.
+  Proof.
+    intros Hv Hlt Hf Hsz. unfold shn, layout_kind.
+    specialize (Hf (dl_64 l) (dl_pad l) eq_refl eq_refl).
+    destruct (dl_64 l) eqn:H64; [| destruct (dl_pad l) eqn:Hpad].
+    - apply sub_field64; [lia | assumption | apply (Hsz SH64) | assumption].
+    - apply sub_field64; [lia | assumption | apply (Hsz SH32pad) | assumption].
+    - apply sub_field64; [lia | assumption | pose proof (Hsz SH32pack) as H; cbn [sh_size] in H; lia | assumption].
   Qed.
 
   Lemma max64_field :
     6 <= dl_version l ->
-    get64 (dl_be l) (rd 0 pgsz shn) (sh_max_mapnr_64 layout_kind) = dl_max_mapnr l.
+    get64 (dl_be l) (rd fi pgsz shn) (sh_max_mapnr_64 layout_kind) = dl_max_mapnr l.
   Proof.
-    intro Hv. pose proof (wf_mapnr64 _ _ Hwf) as Hm.
-    assert (Hs : (if 6 <=? dl_version l then dl_max_mapnr l else 0) = dl_max_mapnr l).
-    { destruct (N.leb_spec 6 (dl_version l)); [reflexivity | lia]. }
-    unfold shn, layout_kind. destruct (dl_64 l) eqn:H64; [| destruct (dl_pad l) eqn:Hpad].
-    - apply sub_field64; [lia | | cbn; lia | assumption].
-      unfold sub_hdr_flds. rewrite H64. cbn. now rewrite Hs.
-    - apply sub_field64; [lia | | cbn; lia | assumption].
-      unfold sub_hdr_flds. rewrite H64, Hpad. cbn. now rewrite Hs.
-    - apply sub_field64; [lia | | cbn; lia | assumption].
-      unfold sub_hdr_flds. rewrite H64, Hpad. cbn. now rewrite Hs.
+    intro Hv. apply v6_field; [assumption | apply (wf_mapnr64 _ _ Hwf) | | intros []; cbn; lia].
+    intros b64 bpad H64 Hpad. unfold sub_hdr_flds. rewrite H64, Hpad.
+    destruct b64; [| destruct bpad]; cbn; now rewrite since_ge.
+  Qed.
+
+  Lemma start64_field :
+    6 <= dl_version l -> dl_split l = true ->
+    get64 (dl_be l) (rd fi pgsz shn) (sh_start_pfn_64 layout_kind) = dl_start_pfn l.
+  Proof.
+    intros Hv Hs. destruct (wf_split _ _ Hwf Hs) as [_ [H1 _]].
+    apply v6_field; [assumption | assumption | | intros []; cbn; lia].
+    intros b64 bpad H64 Hpad. unfold sub_hdr_flds. rewrite H64, Hpad, Hs.
+    destruct b64; [| destruct bpad]; cbn; now rewrite since_ge.
+  Qed.
+
+  Lemma end64_field :
+    6 <= dl_version l -> dl_split l = true ->
+    get64 (dl_be l) (rd fi pgsz shn) (sh_end_pfn_64 layout_kind) = dl_end_pfn l.
+  Proof.
+    intros Hv Hs. destruct (wf_split _ _ Hwf Hs) as [_ [_ [H1 _]]].
+    apply v6_field; [assumption | assumption | | intros []; cbn; lia].
+    intros b64 bpad H64 Hpad. unfold sub_hdr_flds. rewrite H64, Hpad, Hs.
+    destruct b64; [| destruct bpad]; cbn; now rewrite since_ge.
+  Qed.
+
+  (** the window fields of header versions 2..5 *)
+  Lemma window_fields k :
+    2 <= dl_version l -> dl_version l < 6 -> dl_split l = true ->
+    (if dl_64 l then k = SH64 else k <> SH64) ->
+    let w := match k with SH64 => get64 (dl_be l) (rd fi pgsz shn) | _ => get32 (dl_be l) (rd fi pgsz shn) end in
+    (w (sh_start_pfn k), w (sh_end_pfn k)) = (dl_start_pfn l, dl_end_pfn l).
+  Proof.
+    intros Hv2 Hv6 Hs Hk. destruct (wf_split _ _ Hwf Hs) as [_ [Hs64 [He64 H32]]].
+    assert (Hv1 : 1 <= dl_version l) by lia.
+    unfold shn in *. destruct (dl_64 l) eqn:H64.
+    - subst k. cbn zeta. cbn [sh_start_pfn sh_end_pfn]. f_equal.
+      + apply sub_field64; [assumption | | cbn; lia | assumption].
+        unfold sub_hdr_flds. rewrite H64, Hs. cbn. now rewrite since_ge.
+      + apply sub_field64; [assumption | | cbn; lia | assumption].
+        unfold sub_hdr_flds. rewrite H64, Hs. cbn. now rewrite since_ge.
+    - destruct (H32 eq_refl Hv6) as [Hs32 He32].
+      assert (Hw : (match k with SH64 => get64 (dl_be l) (rd fi pgsz 96) | _ => get32 (dl_be l) (rd fi pgsz 96) end)
+                   = get32 (dl_be l) (rd fi pgsz 96)) by (destruct k; [reflexivity | reflexivity | contradiction]).
+      cbn zeta. rewrite Hw.
+      assert (Ho1 : sh_start_pfn k = 12) by (destruct k; [reflexivity | reflexivity | contradiction]).
+      assert (Ho2 : sh_end_pfn k = 16) by (destruct k; [reflexivity | reflexivity | contradiction]).
+      rewrite Ho1, Ho2. f_equal.
+      + rewrite (sub_field32 (dl_be l) 96 12 (N.min (dl_start_pfn l) (2^32 - 1))); [| assumption | | cbn; lia].
+        * unfold put32. rewrite get_put by (cbn; lia). lia.
+        * unfold sub_hdr_flds. rewrite H64, Hs. destruct (dl_pad l); cbn; now rewrite since_ge.
+      + rewrite (sub_field32 (dl_be l) 96 16 (N.min (dl_end_pfn l) (2^32 - 1))); [| assumption | | cbn; lia].
+        * unfold put32. rewrite get_put by (cbn; lia). lia.
+        * unfold sub_hdr_flds. rewrite H64, Hs. destruct (dl_pad l); cbn; now rewrite since_ge.
   Qed.
 
   Lemma mapnr32_small : dl_version l < 6 -> mapnr32 = dl_max_mapnr l.
@@ -496,15 +639,25 @@ Section Roundtrip.
     1 <= dl_version l ->
     (if dl_64 l then k = SH64 else k <> SH64) ->
     (6 <= dl_version l -> k = layout_kind) ->
-    parse_sub_hdr (dl_be l) k (dl_version l) (rd 0 pgsz shn) mapnr32 =
-    (0, KDUMP_PFN_MAX, dl_max_mapnr l).
+    parse_sub_hdr (dl_be l) k (dl_version l) (rd fi pgsz shn) mapnr32 =
+    (win_start l, win_end l, dl_max_mapnr l).
   Proof.
     intros Hv Hk H6. unfold parse_sub_hdr.
-    rewrite (split_field_zero k Hv Hk). cbn [N.eqb negb]. rewrite andb_false_r.
-    destruct (N.leb_spec 6 (dl_version l)) as [Hge | Hlt].
-    - rewrite (H6 Hge). now rewrite max64_field.
-    - now rewrite mapnr32_small.
+    rewrite (split_field k Hv Hk). unfold win_start, win_end.
+    destruct (dl_split l) eqn:Hs.
+    - destruct (wf_split _ _ Hwf Hs) as [Hv2 _].
+      destruct (N.leb_spec 2 (dl_version l)) as [_ |]; [| lia]. cbn [andb].
+      destruct (N.leb_spec 6 (dl_version l)) as [Hge | Hlt].
+      + rewrite (H6 Hge), max64_field, start64_field, end64_field by assumption.
+        destruct (_ : N * N). reflexivity.
+      + pose proof (window_fields k Hv2 Hlt Hs Hk) as Hw. cbn zeta in Hw. rewrite Hw.
+        now rewrite mapnr32_small.
+    - rewrite !andb_false_r.
+      destruct (N.leb_spec 6 (dl_version l)) as [Hge | Hlt].
+      + rewrite (H6 Hge). now rewrite max64_field.
+      + now rewrite mapnr32_small.
   Qed.
+
 
   (** ** which 32-bit sub-header layout (only matters from version 6 on) *)
 
@@ -513,7 +666,7 @@ Section Roundtrip.
 
   Lemma kind32 :
     dl_64 l = false -> 3 <= dl_version l ->
-    sub_hdr_kind_32 (dl_be l) (dl_version l) pgsz (dl_sub_blocks l) (rd 0 pgsz 96) = layout_kind.
+    sub_hdr_kind_32 (dl_be l) (dl_version l) pgsz (dl_sub_blocks l) (rd fi pgsz 96) = layout_kind.
   Proof.
     intros H64 Hv. unfold sub_hdr_kind_32, layout_kind. rewrite H64.
     destruct (N.ltb_spec (dl_version l) 3) as [| _]; [lia |].
@@ -538,7 +691,7 @@ Section Roundtrip.
       { unfold sub_hdr_flds. rewrite H64, Hpad. reflexivity. }
       destruct (F_sub Hv1) as [rest E].
       assert (Hrd : forall off k, off + k <= 96 ->
-                sub (rd 0 pgsz 96) off k = read_of (enc_flds (dl_be l) (sub_hdr_flds l) ++ rest) off k).
+                sub (rd fi pgsz 96) off k = read_of (enc_flds (dl_be l) (sub_hdr_flds l) ++ rest) off k).
       { intros off k Hk. rewrite rd_eq by reflexivity. rewrite sub_read_of by assumption.
         rewrite E. rewrite read_of_skip by (rewrite len_S0; lia). rewrite len_S0. f_equal. lia. }
       pose proof (read_fld (dl_be l) _ rest 24 _ Hoff) as R24. cbn [fld_len enc_fld] in R24.
@@ -595,13 +748,16 @@ Section Roundtrip.
         destruct (N.leb_spec (pgsz + 80 + len (dl_vmcoreinfo l)) (pgsz * (1 + dl_sub_blocks l))); [reflexivity | lia].
   Qed.
 
+
   Lemma read_sub_hdr_ok :
-    read_sub_hdr rd (dl_be l) (dl_64 l) (dl_version l) pgsz (dl_sub_blocks l) 0 mapnr32 =
-    (0, KDUMP_PFN_MAX, dl_max_mapnr l).
+    read_sub_hdr rd (dl_be l) (dl_64 l) (dl_version l) pgsz (dl_sub_blocks l) fi mapnr32 =
+    (win_start l, win_end l, dl_max_mapnr l).
   Proof.
     unfold read_sub_hdr.
     destruct (N.ltb_spec (dl_version l) 1) as [Hv0 | Hv1].
-    - rewrite mapnr32_small by lia. reflexivity.
+    - rewrite mapnr32_small by lia. unfold win_start, win_end.
+      destruct (dl_split l) eqn:Hs; [| reflexivity].
+      destruct (wf_split _ _ Hwf Hs) as [Hv2 _]. lia.
     - fold shn. destruct (dl_64 l) eqn:H64.
       + apply parse_sub_hdr_ok; [assumption | now rewrite H64 | intros _; unfold layout_kind; now rewrite H64].
       + apply parse_sub_hdr_ok; [assumption | |].
@@ -613,16 +769,13 @@ Section Roundtrip.
 
   (** ** the bitmap *)
   Lemma read_bitmap_ok :
-    read_bitmap rd pgsz (dl_sub_blocks l) (bitmap_blocks l) 0 0 KDUMP_PFN_MAX (dl_max_mapnr l) =
+    read_bitmap rd pgsz (dl_sub_blocks l) (bitmap_blocks l) fi (win_start l) (win_end l) (dl_max_mapnr l) =
     (dl_max_mapnr l, pm_regions the_map).
   Proof.
     unfold read_bitmap. pose proof (wf_cover _ _ Hwf) as Hc. fold pgsz in Hc.
     destruct (wf_bmp _ _ Hwf) as [Hb1 Hb2]. pose proof pgsz_bounds as Hpb.
-    assert (Hbm : forall off : N, off = bm2_off -> rd 0 off bmbytes = bm2).
+    assert (Hbm : forall off : N, off = bm2_off -> rd fi off bmbytes = bm2).
     { intros off Hoff. rewrite Hoff, rd_eq by reflexivity. apply rd_bm2. }
-    assert (Hlim : (if KDUMP_PFN_MAX <? bmbytes * 8 then KDUMP_PFN_MAX else bmbytes * 8) = bmbytes * 8).
-    { unfold KDUMP_PFN_MAX. destruct (N.ltb_spec (2^64 - 1) (bmbytes * 8)) as [Hlt |]; [| reflexivity].
-      exfalso. unfold bmbytes, bitmap_blocks in Hlt, Hb2. destruct (dl_two_bitmaps l); nia. }
     unfold bitmap_blocks, bm2_off in Hb2, Hbm |- *. destruct (dl_two_bitmaps l) eqn:Htwo.
     - (* makedumpfile: two bitmaps, the second one counts *)
       replace (2 * dl_bmp_blocks l * pgsz * 8 / 2) with (bmbytes * 8)
@@ -631,7 +784,7 @@ Section Roundtrip.
       replace (2 * dl_bmp_blocks l / 2) with (dl_bmp_blocks l)
         by (apply N.div_unique_exact; lia).
       fold bmbytes. destruct (N.ltb_spec (bmbytes * 8) (dl_max_mapnr l)) as [Hbad |]; [unfold bmbytes in Hbad; lia |].
-      rewrite Hbm by lia. rewrite Hlim. cbn [the_map pm_regions].
+      rewrite Hbm by lia. cbn [the_map pm_regions]. fold lim.
       do 2 f_equal. unfold descoff, bitmap_blocks. rewrite Htwo. lia.
     - (* diskdump: a single bitmap *)
       pose proof (wf_single _ _ Hwf Htwo) as Hs. fold pgsz in Hs.
@@ -639,46 +792,48 @@ Section Roundtrip.
       + exfalso. assert (dl_bmp_blocks l * pgsz * 8 / 2 = 4 * dl_bmp_blocks l * pgsz)
           by (symmetry; apply N.div_unique_exact; lia). lia.
       + fold bmbytes. destruct (N.ltb_spec (bmbytes * 8) (dl_max_mapnr l)) as [Hbad |]; [unfold bmbytes in Hbad; lia |].
-        rewrite Hbm by lia. rewrite Hlim. cbn [the_map pm_regions].
+        rewrite Hbm by lia. cbn [the_map pm_regions]. fold lim.
         do 2 f_equal. unfold descoff, bitmap_blocks. rewrite Htwo. lia.
   Qed.
 
-  (** ** [do_header_32/64] on the one file *)
+  (** ** [do_header_32/64] on this file *)
   Definition dhn : N := if dl_64 l then DH64_SIZE else DH32_SIZE.
 
-  Lemma hdr_block_size : get32 (dl_be l) (rd 0 0 dhn) (dh_block_size (dl_64 l)) = pgsz.
+  Lemma hdr_block_size : get32 (dl_be l) (rd fi 0 dhn) (dh_block_size (dl_64 l)) = pgsz.
   Proof.
     pose proof pgsz_bounds. unfold dhn, dh_block_size.
     destruct (dl_64 l) eqn:H64; apply hdr_field_ok; try (unfold header_flds; rewrite H64; reflexivity);
       unfold DH64_SIZE, DH32_SIZE; fold pgsz; lia.
   Qed.
 
-  Lemma hdr_sub_blocks : get32 (dl_be l) (rd 0 0 dhn) (dh_sub_hdr_size (dl_64 l)) = dl_sub_blocks l.
+  Lemma hdr_sub_blocks : get32 (dl_be l) (rd fi 0 dhn) (dh_sub_hdr_size (dl_64 l)) = dl_sub_blocks l.
   Proof.
     pose proof (wf_sub _ _ Hwf). unfold dhn, dh_sub_hdr_size.
     destruct (dl_64 l) eqn:H64; apply hdr_field_ok; try (unfold header_flds; rewrite H64; reflexivity);
       unfold DH64_SIZE, DH32_SIZE; lia.
   Qed.
 
-  Lemma hdr_bitmap_blocks : get32 (dl_be l) (rd 0 0 dhn) (dh_bitmap_blocks (dl_64 l)) = bitmap_blocks l.
+  Lemma hdr_bitmap_blocks : get32 (dl_be l) (rd fi 0 dhn) (dh_bitmap_blocks (dl_64 l)) = bitmap_blocks l.
   Proof.
     destruct (wf_bmp _ _ Hwf). unfold dhn, dh_bitmap_blocks.
     destruct (dl_64 l) eqn:H64; apply hdr_field_ok; try (unfold header_flds; rewrite H64; reflexivity);
       unfold DH64_SIZE, DH32_SIZE; lia.
   Qed.
 
-  Lemma hdr_max_mapnr : get32 (dl_be l) (rd 0 0 dhn) (dh_max_mapnr (dl_64 l)) = mapnr32.
+  Lemma hdr_max_mapnr : get32 (dl_be l) (rd fi 0 dhn) (dh_max_mapnr (dl_64 l)) = mapnr32.
   Proof.
     unfold dhn, dh_max_mapnr.
     destruct (dl_64 l) eqn:H64; apply hdr_field_ok; try (unfold header_flds; rewrite H64; reflexivity);
       unfold DH64_SIZE, DH32_SIZE, mapnr32; lia.
   Qed.
 
-  Lemma do_files_ok ver :
-    ver = dl_version l ->
-    do_files rd (dl_be l) (dl_64 l) ver 1 0 [] 0 0 = Ok (pgsz, dl_max_mapnr l, [the_map]).
+  (** one round of the per-file loop: whatever came before, this file sets the
+      geometry and contributes its map *)
+  Lemma do_files_step k acc p m :
+    do_files rd (dl_be l) (dl_64 l) (dl_version l) (S k) fi acc p m =
+    do_files rd (dl_be l) (dl_64 l) (dl_version l) k (fi + 1) (the_map :: acc) pgsz (dl_max_mapnr l).
   Proof.
-    intros ->. cbn [do_files]. fold dhn.
+    cbn [do_files]. fold dhn.
     rewrite hdr_block_size, hdr_bitmap_blocks, hdr_max_mapnr, hdr_sub_blocks, try_header_good.
     pose proof (wf_sub _ _ Hwf). destruct (wf_bmp _ _ Hwf).
     destruct (N.leb_spec (2^31) (dl_sub_blocks l)); [lia |].
@@ -686,87 +841,406 @@ Section Roundtrip.
     rewrite read_sub_hdr_ok, read_bitmap_ok. reflexivity.
   Qed.
 
-  (** ** probing word size and byte order *)
-  Lemma hdr464_field be' off v :
-    fld_at (header_flds l) off = Some (F32 v) -> off + 4 <= 464 ->
-    get32 be' (rd 0 0 DH64_SIZE) off = get be' (put32 (dl_be l) v).
-  Proof. intros. now apply hdr_field. Qed.
+  (** ** probing word size and byte order: done on the first file *)
+  Section Probe.
+    Variable nfiles : nat.
+    Variable maps : list pfn_file_map.
+    Hypothesis Hfi0 : fi = 0.
+    Hypothesis Hgo : do_files rd (dl_be l) (dl_64 l) (dl_version l) nfiles 0 [] 0 0 =
+                     Ok (pgsz, dl_max_mapnr l, maps).
 
-  Lemma probe32_of_64 :
-    dl_64 l = true -> try_header_w rd false (rd 0 0 DH64_SIZE) 1 = Err ERR_CORRUPT.
-  Proof.
-    intro H64. unfold try_header_w.
-    assert (Hz : forall be', get32 be' (rd 0 0 DH64_SIZE) (dh_block_size false) = 0).
-    { intro be'. cbn [dh_block_size]. rewrite (hdr464_field be' 416 0); [apply get_put32_zero | | lia].
-      unfold header_flds. rewrite H64. reflexivity. }
-    rewrite !Hz. rewrite !try_header_bad by reflexivity. reflexivity.
-  Qed.
+    Lemma hdr464_field be' off v :
+      fld_at (header_flds l) off = Some (F32 v) -> off + 4 <= 464 ->
+      get32 be' (rd 0 0 DH64_SIZE) off = get be' (put32 (dl_be l) v).
+    Proof. intros. replace (rd 0 0 DH64_SIZE) with (rd fi 0 DH64_SIZE) by (now rewrite Hfi0). now apply hdr_field. Qed.
 
-  Lemma hdr464_own off v :
-    fld_at (header_flds l) off = Some (F32 v) -> off + 4 <= 464 -> v < 2^32 ->
-    get32 (dl_be l) (rd 0 0 DH64_SIZE) off = v.
-  Proof. intros. now apply hdr_field_ok. Qed.
+    Lemma probe32_of_64 :
+      dl_64 l = true -> try_header_w rd false (rd 0 0 DH64_SIZE) nfiles = Err ERR_CORRUPT.
+    Proof.
+      intro H64. unfold try_header_w.
+      assert (Hz : forall be', get32 be' (rd 0 0 DH64_SIZE) (dh_block_size false) = 0).
+      { intro be'. cbn [dh_block_size]. rewrite (hdr464_field be' 416 0); [apply get_put32_zero | | lia].
+        unfold header_flds. rewrite H64. reflexivity. }
+      rewrite !Hz. rewrite !try_header_bad by reflexivity. reflexivity.
+    Qed.
 
-  Lemma probe_own :
-    try_header_w rd (dl_64 l) (rd 0 0 DH64_SIZE) 1 = Ok (dl_be l, pgsz, dl_max_mapnr l, [the_map]).
-  Proof.
-    unfold try_header_w.
-    pose proof pgsz_bounds as Hpb. pose proof (wf_sub _ _ Hwf) as Hsub. destruct (wf_bmp _ _ Hwf) as [_ Hbb].
-    pose proof (wf_version _ _ Hwf) as Hver.
-    assert (Hbs : fld_at (header_flds l) (dh_block_size (dl_64 l)) = Some (F32 pgsz))
-      by (unfold header_flds; destruct (dl_64 l); reflexivity).
-    assert (Hbm : fld_at (header_flds l) (dh_bitmap_blocks (dl_64 l)) = Some (F32 (bitmap_blocks l)))
-      by (unfold header_flds; destruct (dl_64 l); reflexivity).
-    assert (Hmm : fld_at (header_flds l) (dh_max_mapnr (dl_64 l)) = Some (F32 mapnr32))
-      by (unfold header_flds; destruct (dl_64 l); reflexivity).
-    assert (Hvf : fld_at (header_flds l) DH_VERSION = Some (F32 (dl_version l)))
-      by (unfold header_flds; destruct (dl_64 l); reflexivity).
-    assert (Ho1 : dh_block_size (dl_64 l) + 4 <= 464) by (destruct (dl_64 l); cbn; lia).
-    assert (Ho2 : dh_bitmap_blocks (dl_64 l) + 4 <= 464) by (destruct (dl_64 l); cbn; lia).
-    assert (Ho3 : dh_max_mapnr (dl_64 l) + 4 <= 464) by (destruct (dl_64 l); cbn; lia).
-    assert (Hgood : try_header (get32 (dl_be l) (rd 0 0 DH64_SIZE) (dh_block_size (dl_64 l)))
-                      (get32 (dl_be l) (rd 0 0 DH64_SIZE) (dh_bitmap_blocks (dl_64 l)))
-                      (get32 (dl_be l) (rd 0 0 DH64_SIZE) (dh_max_mapnr (dl_64 l))) = Ok (pgsz, mapnr32)).
-    { rewrite (hdr464_own _ _ Hbs Ho1) by lia. rewrite (hdr464_own _ _ Hbm Ho2) by lia.
-      rewrite (hdr464_own _ _ Hmm Ho3) by (unfold mapnr32; lia). apply try_header_good. }
-    assert (Hgo : do_files rd (dl_be l) (dl_64 l) (get32 (dl_be l) (rd 0 0 DH64_SIZE) DH_VERSION) 1 0 [] 0 0
-                  = Ok (pgsz, dl_max_mapnr l, [the_map])).
-    { apply do_files_ok. apply hdr464_own; [assumption | cbn; lia | lia]. }
-    destruct (dl_be l) eqn:Hbe.
-    - (* big endian: the little-endian attempt sees a byte-swapped block size *)
-      rewrite (hdr464_field false _ _ Hbs Ho1). rewrite Hbe.
-      rewrite try_header_bad by (apply (wrong_endian_block_size false)).
-      cbn [N.eqb negb]. rewrite Hgood, Hgo. reflexivity.
-    - rewrite Hgood, Hgo. reflexivity.
-  Qed.
+    Lemma hdr464_own off v :
+      fld_at (header_flds l) off = Some (F32 v) -> off + 4 <= 464 -> v < 2^32 ->
+      get32 (dl_be l) (rd 0 0 DH64_SIZE) off = v.
+    Proof. intros. replace (rd 0 0 DH64_SIZE) with (rd fi 0 DH64_SIZE) by (now rewrite Hfi0). now apply hdr_field_ok. Qed.
 
-  Lemma sig_ok :
-    let sig := sub (rd 0 0 DH64_SIZE) 0 8 in
-    bytes_eqb sig magic_diskdump || bytes_eqb sig magic_kdump = true.
-  Proof.
-    cbn zeta. rewrite rd_eq by reflexivity. rewrite sub_read_of by (unfold DH64_SIZE; lia).
-    destruct F_hdr as [rest E]. rewrite E.
-    assert (Hf : fld_at (header_flds l) 0 = Some (FB 8 (if dl_kdump_sig l then sig_kdump else sig_diskdump)))
-      by reflexivity.
-    pose proof (read_fld (dl_be l) _ rest 0 _ Hf) as R. cbn [fld_len enc_fld] in R.
-    change (0 + 0) with 0. rewrite R. destruct (dl_kdump_sig l); reflexivity.
-  Qed.
+    Lemma probe_own :
+      try_header_w rd (dl_64 l) (rd 0 0 DH64_SIZE) nfiles = Ok (dl_be l, pgsz, dl_max_mapnr l, maps).
+    Proof.
+      unfold try_header_w.
+      pose proof pgsz_bounds as Hpb. pose proof (wf_sub _ _ Hwf) as Hsub. destruct (wf_bmp _ _ Hwf) as [_ Hbb].
+      pose proof (wf_version _ _ Hwf) as Hver.
+      assert (Hbs : fld_at (header_flds l) (dh_block_size (dl_64 l)) = Some (F32 pgsz))
+        by (unfold header_flds; destruct (dl_64 l); reflexivity).
+      assert (Hbm : fld_at (header_flds l) (dh_bitmap_blocks (dl_64 l)) = Some (F32 (bitmap_blocks l)))
+        by (unfold header_flds; destruct (dl_64 l); reflexivity).
+      assert (Hmm : fld_at (header_flds l) (dh_max_mapnr (dl_64 l)) = Some (F32 mapnr32))
+        by (unfold header_flds; destruct (dl_64 l); reflexivity).
+      assert (Hvf : fld_at (header_flds l) DH_VERSION = Some (F32 (dl_version l)))
+        by (unfold header_flds; destruct (dl_64 l); reflexivity).
+      assert (Ho1 : dh_block_size (dl_64 l) + 4 <= 464) by (destruct (dl_64 l); cbn; lia).
+      assert (Ho2 : dh_bitmap_blocks (dl_64 l) + 4 <= 464) by (destruct (dl_64 l); cbn; lia).
+      assert (Ho3 : dh_max_mapnr (dl_64 l) + 4 <= 464) by (destruct (dl_64 l); cbn; lia).
+      assert (Hgood : try_header (get32 (dl_be l) (rd 0 0 DH64_SIZE) (dh_block_size (dl_64 l)))
+                        (get32 (dl_be l) (rd 0 0 DH64_SIZE) (dh_bitmap_blocks (dl_64 l)))
+                        (get32 (dl_be l) (rd 0 0 DH64_SIZE) (dh_max_mapnr (dl_64 l))) = Ok (pgsz, mapnr32)).
+      { rewrite (hdr464_own _ _ Hbs Ho1) by lia. rewrite (hdr464_own _ _ Hbm Ho2) by lia.
+        rewrite (hdr464_own _ _ Hmm Ho3) by (unfold mapnr32; lia). apply try_header_good. }
+      assert (Hgo' : do_files rd (dl_be l) (dl_64 l) (get32 (dl_be l) (rd 0 0 DH64_SIZE) DH_VERSION) nfiles 0 [] 0 0
+                    = Ok (pgsz, dl_max_mapnr l, maps)).
+      { rewrite (hdr464_own _ _ Hvf) by (cbn; lia). exact Hgo. }
+      destruct (dl_be l) eqn:Hbe.
+      - (* big endian: the little-endian attempt sees a byte-swapped block size *)
+        rewrite (hdr464_field false _ _ Hbs Ho1). rewrite Hbe.
+        rewrite try_header_bad by (apply (wrong_endian_block_size false)).
+        cbn [N.eqb negb]. rewrite Hgood, Hgo'. reflexivity.
+      - rewrite Hgood, Hgo'. reflexivity.
+    Qed.
 
-  (** opening the encoded dump yields the expected state: in particular the
-      geometry the layout says *)
-  Theorem open_spec : dd_open rd 1 = Ok expected_state.
-  Proof.
-    unfold dd_open. pose proof sig_ok as Hs. cbn zeta in Hs. rewrite Hs. cbn [negb].
-    destruct (dl_64 l) eqn:H64.
-    - rewrite (probe32_of_64 H64). cbn [N.eqb negb].
-      pose proof probe_own as Hp. rewrite H64 in Hp. rewrite Hp.
-      unfold expected_state. rewrite H64. reflexivity.
-    - pose proof probe_own as Hp. rewrite H64 in Hp. rewrite Hp.
-      unfold expected_state. rewrite H64. reflexivity.
-  Qed.
+    Lemma sig_ok :
+      let sig := sub (rd 0 0 DH64_SIZE) 0 8 in
+      bytes_eqb sig magic_diskdump || bytes_eqb sig magic_kdump = true.
+    Proof.
+      cbn zeta. rewrite rd_eq by (symmetry; exact Hfi0). rewrite sub_read_of by (unfold DH64_SIZE; lia).
+      destruct F_hdr as [rest E]. rewrite E.
+      assert (Hf : fld_at (header_flds l) 0 = Some (FB 8 (if dl_kdump_sig l then sig_kdump else sig_diskdump)))
+        by reflexivity.
+      pose proof (read_fld (dl_be l) _ rest 0 _ Hf) as R. cbn [fld_len enc_fld] in R.
+      change (0 + 0) with 0. rewrite R. destruct (dl_kdump_sig l); reflexivity.
+    Qed.
+
+    (** opening the set yields the geometry the layout says and the sorted maps *)
+    Theorem open_spec :
+      dd_open rd nfiles =
+      Ok {| dd_be := dl_be l; dd_ptr_size := if dl_64 l then 8 else 4; dd_page_size := pgsz;
+            dd_max_pfn := dl_max_mapnr l; dd_maps := sort_maps maps |}.
+    Proof.
+      unfold dd_open. pose proof sig_ok as Hs. cbn zeta in Hs. rewrite Hs. cbn [negb].
+      pose proof probe_own as Hp. pose proof probe32_of_64 as H32.
+      destruct (dl_64 l) eqn:H64.
+      - rewrite (H32 eq_refl). cbn [N.eqb negb]. rewrite Hp. reflexivity.
+      - rewrite Hp. reflexivity.
+    Qed.
+  End Probe.
 End Roundtrip.
 
+(** * file sets
+
+    The PFN -> file function of a split set ([sort_pfn_file_maps] +
+    [find_pfn_file_map] + the [start_pfn] test) is the subject of C11; its
+    theorem [SplitProofs.owner_spec] (the owner is the file whose window holds
+    the frame, in whatever order the files were given) is imported here and
+    composed with the per-file results above. *)
+From KdV Require Flat.SplitModel Flat.SplitSpec Flat.SplitProofs.
+
+Definition proj (m : pfn_file_map) : SplitModel.pfmap :=
+  {| SplitModel.start_pfn := pm_start m; SplitModel.end_pfn := pm_end m;
+     SplitModel.fidx := pm_fidx m |}.
+
+Lemma insert_proj m ms : map proj (insert_map m ms) = SplitModel.insert_map (proj m) (map proj ms).
+Proof.
+  induction ms as [| h t IH]; [reflexivity |].
+  cbn [insert_map SplitModel.insert_map map]. unfold SplitModel.map_le. cbn [proj SplitModel.end_pfn].
+  destruct (pm_end m <=? pm_end h); cbn [map]; [reflexivity | now rewrite IH].
+Qed.
+
+Lemma sort_proj ms : map proj (sort_maps ms) = SplitModel.sort_pfn_file_maps (map proj ms).
+Proof.
+  induction ms as [| h t IH]; [reflexivity |].
+  cbn [sort_maps fold_right map SplitModel.sort_pfn_file_maps]. fold (sort_maps t).
+  fold (SplitModel.sort_pfn_file_maps (map proj t)). now rewrite insert_proj, IH.
+Qed.
+
+Lemma find_proj ms pfn :
+  SplitModel.find_pfn_file_map (map proj ms) pfn = option_map proj (find_pfn_file_map ms pfn).
+Proof.
+  induction ms as [| h t IH]; [reflexivity |].
+  cbn [map SplitModel.find_pfn_file_map find_pfn_file_map proj SplitModel.end_pfn].
+  destruct (pfn <? pm_end h); [reflexivity | exact IH].
+Qed.
+
+Lemma insert_map_in x m ms : In x (insert_map m ms) <-> x = m \/ In x ms.
+Proof.
+  induction ms as [| h t IH]; cbn [insert_map In]; [intuition congruence |].
+  destruct (pm_end m <=? pm_end h); cbn [In]; [intuition congruence |].
+  rewrite IH. intuition congruence.
+Qed.
+
+Lemma sort_maps_in x ms : In x (sort_maps ms) <-> In x ms.
+Proof.
+  induction ms as [| h t IH]; [reflexivity |].
+  cbn [sort_maps fold_right]. fold (sort_maps t). rewrite insert_map_in, IH. cbn [In]. intuition congruence.
+Qed.
+
+Section FileSet.
+  Variable decompress : N -> bytes -> option bytes.
+  Variable l : dd_layout.                 (* what the files have in common *)
+  Variable ws : list (N * N).             (* their windows, in the order the files are given *)
+  Variable pages : list (option dd_page).
+  Variable img : image.
+  Hypothesis Hwf : forall w, In w ws -> dd_wf (with_window l w) img.
+  Hypothesis Hst : Forall2 (stores decompress) pages img.
+  Hypothesis Hsize : forall w, In w ws -> len (encode_dd (with_window l w) pages) < 2^64.
+  Hypothesis Hws : windows_ok ws (dl_max_mapnr l).
+  Hypothesis Hne : ws <> [].
+
+  Let rd := read_files (encode_dd_set l ws pages).
+
+  Fixpoint maps_from (fi : N) (ws' : list (N * N)) : list pfn_file_map :=
+    match ws' with
+    | [] => []
+    | w :: t => the_map fi (with_window l w) pages :: maps_from (fi + 1) t
+    end.
+
+  Lemma rd_file j w off n :
+    nth_error ws j = Some w ->
+    rd (N.of_nat j) off n = read_of (encode_dd (with_window l w) pages) off n.
+  Proof.
+    intro H. unfold rd, read_files, encode_dd_set. rewrite Nat2N.id. f_equal.
+    apply nth_error_nth. rewrite nth_error_map, H. reflexivity.
+  Qed.
+
+  Lemma do_files_from : forall ws' w fi acc p m,
+    (forall j w', nth_error (w :: ws') j = Some w' ->
+       In w' ws /\
+       forall off n, rd (fi + N.of_nat j) off n = read_of (encode_dd (with_window l w') pages) off n) ->
+    do_files rd (dl_be l) (dl_64 l) (dl_version l) (S (length ws')) fi acc p m =
+    Ok (dl_page_size l, dl_max_mapnr l, rev acc ++ maps_from fi (w :: ws')).
+  Proof.
+    induction ws' as [| w' t IH]; intros w fi acc p m H.
+    - destruct (H O w eq_refl) as [Hin Hr]. rewrite N.add_0_r in Hr.
+      rewrite (do_files_step rd fi (with_window l w) pages img (Hwf _ Hin) (Hsize _ Hin) Hr).
+      reflexivity.
+    - destruct (H O w eq_refl) as [Hin Hr]. rewrite N.add_0_r in Hr.
+      rewrite (do_files_step rd fi (with_window l w) pages img (Hwf _ Hin) (Hsize _ Hin) Hr).
+      cbn [with_window dl_be dl_64 dl_version dl_page_size dl_max_mapnr length].
+      rewrite (IH w').
+      + cbn [maps_from rev]. now rewrite <- app_assoc.
+      + intros j w'' Hj. destruct (H (S j) w'' Hj) as [Hin' Hr']. split; [assumption |].
+        intros off n. rewrite <- Hr'. f_equal. lia.
+  Qed.
+
+  Definition set_maps : list pfn_file_map := maps_from 0 ws.
+
+  Definition set_state : dd_state :=
+    {| dd_be := dl_be l; dd_ptr_size := if dl_64 l then 8 else 4; dd_page_size := dl_page_size l;
+       dd_max_pfn := dl_max_mapnr l; dd_maps := sort_maps set_maps |}.
+
+  Theorem set_open : dd_open rd (length ws) = Ok set_state.
+  Proof.
+    unfold set_state, set_maps.
+    assert (exists w0 ws', ws = w0 :: ws') as [w0 [ws' Ews]] by (destruct ws; [contradiction | eauto]).
+    assert (Hin0 : In w0 ws) by (rewrite Ews; now left).
+    assert (Hr0 : forall off n, rd 0 off n = read_of (encode_dd (with_window l w0) pages) off n).
+    { intros. apply (rd_file 0 w0). now rewrite Ews. }
+    pose proof (open_spec rd 0 (with_window l w0) pages img (Hwf _ Hin0) (Hsize _ Hin0) Hr0
+                  (length ws) (maps_from 0 ws) eq_refl) as Ho.
+    cbn [with_window dl_be dl_64 dl_version dl_page_size dl_max_mapnr] in Ho. apply Ho.
+    rewrite Ews. cbn [length]. rewrite (do_files_from ws' w0); [reflexivity |].
+    intros j w' Hj. rewrite <- Ews in Hj. split; [eapply nth_error_In; eassumption |].
+    intros off n. rewrite N.add_0_l. now apply rd_file.
+  Qed.
+
+  (** the maps are those of the files, with the file's position as index *)
+  Lemma maps_from_in m : forall ws' fi,
+    In m (maps_from fi ws') ->
+    exists j w, nth_error ws' j = Some w /\ m = the_map (fi + N.of_nat j) (with_window l w) pages.
+  Proof.
+    induction ws' as [| w t IH]; intros fi H; [destruct H |].
+    destruct H as [<- | H].
+    - exists O, w. split; [reflexivity |]. now rewrite N.add_0_r.
+    - destruct (IH _ H) as [j [w' [Hj ->]]]. exists (S j), w'. split; [assumption |]. f_equal. lia.
+  Qed.
+
+  Lemma maps_from_nth : forall ws' fi j w,
+    nth_error ws' j = Some w -> In (the_map (fi + N.of_nat j) (with_window l w) pages) (maps_from fi ws').
+  Proof.
+    induction ws' as [| w' t IH]; intros fi j w H; [destruct j; discriminate |].
+    destruct j.
+    - injection H as ->. left. now rewrite N.add_0_r.
+    - right. replace (fi + N.of_nat (S j)) with (fi + 1 + N.of_nat j) by lia. now apply IH.
+  Qed.
+
+  Lemma wf_projected : SplitSpec.wf_set (map proj set_maps).
+  Proof.
+    destruct Hws as [Hnonempty [Hnodup [Hdisj _]]]. unfold set_maps. split.
+    - intros pm Hin. apply in_map_iff in Hin as [m [<- Hm]].
+      destruct (maps_from_in _ _ _ Hm) as [j [w [Hj ->]]]. cbn.
+      apply Hnonempty. eapply nth_error_In; eassumption.
+    - intros a b Ha Hb. apply in_map_iff in Ha as [ma [<- Hma]]. apply in_map_iff in Hb as [mb [<- Hmb]].
+      destruct (maps_from_in _ _ _ Hma) as [i [wi [Hi ->]]].
+      destruct (maps_from_in _ _ _ Hmb) as [j [wj [Hj ->]]].
+      destruct (Nat.eq_dec i j) as [-> | Hij].
+      + left. rewrite Hi in Hj. now injection Hj as ->.
+      + right. unfold SplitSpec.disjoint. cbn.
+        apply Hdisj; [eapply nth_error_In; eassumption | eapply nth_error_In; eassumption |].
+        intros ->. apply Hij. rewrite NoDup_nth_error in Hnodup. apply Hnodup.
+        * apply nth_error_Some. now rewrite Hi.
+        * now rewrite Hi, Hj.
+  Qed.
+
+  (** which descriptor table a page frame is looked up in *)
+  Lemma hit_in_window j w pfn :
+    nth_error ws j = Some w -> fst w <= pfn < snd w ->
+    find_pfn_file_map (sort_maps set_maps) pfn = Some (the_map (N.of_nat j) (with_window l w) pages).
+  Proof.
+    intros Hj Hw. set (m := the_map (N.of_nat j) (with_window l w) pages).
+    assert (Hin : In m set_maps).
+    { unfold set_maps, m. rewrite <- (N.add_0_l (N.of_nat j)). now apply maps_from_nth. }
+    pose proof (proj2 (SplitProofs.owner_spec (map proj set_maps) pfn (proj m) wf_projected)) as Ho.
+    specialize (Ho (conj (in_map proj _ _ Hin) Hw)).
+    unfold SplitModel.owner, SplitModel.owner_sorted in Ho.
+    rewrite <- sort_proj, find_proj in Ho.
+    destruct (find_pfn_file_map (sort_maps set_maps) pfn) as [m' |] eqn:E; [| discriminate].
+    cbn [option_map] in Ho. destruct (SplitModel.start_pfn (proj m') <=? pfn); [| discriminate].
+    injection Ho as _ _ Hp.
+    assert (Hin' : In m' set_maps).
+    { apply sort_maps_in. clear - E. induction (sort_maps set_maps) as [| h t IH]; [discriminate |].
+      cbn [find_pfn_file_map] in E. destruct (pfn <? pm_end h); [injection E as ->; now left | right; auto]. }
+    destruct (maps_from_in _ _ _ Hin') as [j' [w' [Hj' ->]]].
+    assert (Ejj : j' = j).
+    { unfold m in Hp. cbn in Hp. lia. }
+    subst j'. rewrite Hj in Hj'. injection Hj' as <-. rewrite N.add_0_l. reflexivity.
+  Qed.
+
+  Lemma hit_is_a_file m pfn :
+    find_pfn_file_map (sort_maps set_maps) pfn = Some m ->
+    exists j w, nth_error ws j = Some w /\ m = the_map (N.of_nat j) (with_window l w) pages.
+  Proof.
+    intro E.
+    assert (Hin : In m set_maps).
+    { apply sort_maps_in. clear - E. induction (sort_maps set_maps) as [| h t IH]; [discriminate |].
+      cbn [find_pfn_file_map] in E. destruct (pfn <? pm_end h); [injection E as ->; now left | right; auto]. }
+    destruct (maps_from_in _ _ _ Hin) as [j [w [Hj ->]]]. exists j, w. now rewrite N.add_0_l.
+  Qed.
+
+  (** reading a page frame from the set: exactly the image's page *)
+  Theorem set_read_page z pfn :
+    dd_read_page rd decompress set_state z pfn =
+    spec_read_page img (dl_page_size l) (dl_max_mapnr l) z pfn.
+  Proof.
+    rewrite dd_read_page_unfold. unfold spec_read_page.
+    cbn [dd_max_pfn dd_page_size dd_maps dd_be set_state].
+    destruct (N.leb_spec (dl_max_mapnr l) pfn) as [| Hpfn]; [reflexivity |].
+    unfold hit_of.
+    destruct (nth_error img (N.to_nat pfn)) as [[c |] |] eqn:Hc.
+    - (* stored: some window holds the frame, that file has the descriptor and the data *)
+      destruct Hws as [_ [_ [_ Hcover]]]. destruct (Hcover pfn Hpfn) as [w [Hin Hw]].
+      destruct (In_nth_error _ _ Hin) as [j Hj].
+      rewrite (hit_in_window j w pfn Hj Hw).
+      change (pm_start (the_map (N.of_nat j) (with_window l w) pages)) with (fst w).
+      destruct (N.leb_spec (fst w) pfn); [| lia].
+      destruct (page_in_window decompress rd (N.of_nat j) (with_window l w) pages img
+                  (Hwf _ Hin) Hst (Hsize _ Hin) (fun off n => rd_file j w off n Hj) pfn c Hw Hc)
+        as [pos [Hpos Hpage]].
+      rewrite Hpos. exact Hpage.
+    - (* not in the dump: no file has a descriptor for it *)
+      assert (Hnone : match nth_error pages (N.to_nat pfn) with Some (Some _) => False | _ => True end).
+      { pose proof (Forall2_nth_error _ _ _ Hst (N.to_nat pfn)) as R. rewrite Hc in R.
+        destruct (nth_error pages (N.to_nat pfn)) as [[p |] |]; [contradiction | exact I | exact I]. }
+      destruct (find_pfn_file_map (sort_maps set_maps) pfn) as [m |] eqn:E; [| reflexivity].
+      destruct (hit_is_a_file _ _ E) as [j [w [Hj ->]]].
+      assert (Hin : In w ws) by (eapply nth_error_In; eassumption).
+      rewrite (pdpos_none decompress _ _ _ img (Hwf _ Hin) Hst (Hsize _ Hin) pfn Hnone).
+      destruct (_ <=? pfn); reflexivity.
+    - assert (Hnone : match nth_error pages (N.to_nat pfn) with Some (Some _) => False | _ => True end).
+      { pose proof (Forall2_nth_error _ _ _ Hst (N.to_nat pfn)) as R. rewrite Hc in R.
+        destruct (nth_error pages (N.to_nat pfn)) as [[p |] |]; [contradiction | contradiction | exact I]. }
+      destruct (find_pfn_file_map (sort_maps set_maps) pfn) as [m |] eqn:E; [| reflexivity].
+      destruct (hit_is_a_file _ _ E) as [j [w [Hj ->]]].
+      assert (Hin : In w ws) by (eapply nth_error_In; eassumption).
+      rewrite (pdpos_none decompress _ _ _ img (Hwf _ Hin) Hst (Hsize _ Hin) pfn Hnone).
+      destruct (_ <=? pfn); reflexivity.
+  Qed.
+End FileSet.
+
 (** * closed statements *)
+
+(** a whole dump in one file is the set with the single window "everything" *)
+Lemma with_window_wf l img w :
+  dd_wf l img -> 2 <= dl_version l -> fst w < 2^64 -> snd w < 2^64 ->
+  (dl_64 l = false -> dl_version l < 6 -> fst w < 2^32 /\ snd w < 2^32) ->
+  dd_wf (with_window l w) img.
+Proof.
+  intros [] Hv H1 H2 H3. constructor; cbn [with_window dl_page_size dl_version dl_max_mapnr dl_sub_blocks
+    dl_vmcoreinfo dl_notes dl_eraseinfo dl_bmp_blocks dl_two_bitmaps dl_split dl_64 dl_pad dl_status
+    dl_phys_base dl_dump_level dl_start_pfn dl_end_pfn]; try assumption.
+  intros _. repeat split; try assumption; now apply H3.
+Qed.
+
+Lemma nth_error_nil' {A} k : @nth_error A [] k = None.
+Proof. destruct k; reflexivity. Qed.
+
+Section Single.
+  Variable decompress : N -> bytes -> option bytes.
+  Variable l : dd_layout.
+  Variable pages : list (option dd_page).
+  Variable img : image.
+  Hypothesis Hwf : dd_wf l img.
+  Hypothesis Hst : Forall2 (stores decompress) pages img.
+  Hypothesis Hsize : len (encode_dd l pages) < 2^64.
+
+  Let rd := read_files [encode_dd l pages].
+
+  Definition expected_state : dd_state :=
+    {| dd_be := dl_be l; dd_ptr_size := if dl_64 l then 8 else 4; dd_page_size := dl_page_size l;
+       dd_max_pfn := dl_max_mapnr l; dd_maps := [the_map 0 l pages] |}.
+
+  Lemma rd_single off n : rd 0 off n = read_of (encode_dd l pages) off n.
+  Proof. reflexivity. Qed.
+
+  Theorem single_open : dd_open rd 1 = Ok expected_state.
+  Proof.
+    apply (open_spec rd 0 l pages img Hwf Hsize rd_single 1 [the_map 0 l pages] eq_refl).
+    rewrite (do_files_step rd 0 l pages img Hwf Hsize rd_single). reflexivity.
+  Qed.
+
+  (** a single file need not cover everything: a member of a split set opened
+      on its own gives its window's pages and nothing for the rest *)
+  Theorem single_read_page z pfn :
+    dd_read_page rd decompress expected_state z pfn =
+    spec_read_page (if (win_start l <=? pfn) && (pfn <? win_end l) then img else [])
+                   (dl_page_size l) (dl_max_mapnr l) z pfn.
+  Proof.
+    rewrite dd_read_page_unfold. unfold spec_read_page, hit_of.
+    cbn [dd_max_pfn dd_page_size dd_maps dd_be expected_state find_pfn_file_map].
+    destruct (N.leb_spec (dl_max_mapnr l) pfn) as [| Hpfn]; [reflexivity |].
+    change (pm_end (the_map 0 l pages)) with (win_end l).
+    destruct (N.ltb_spec pfn (win_end l)) as [He | He].
+    2:{ rewrite andb_false_r, nth_error_nil'. reflexivity. }
+    cbn beta iota. change (pm_start (the_map 0 l pages)) with (win_start l).
+    destruct (N.leb_spec (win_start l) pfn) as [Hs | Hs]; cbn [andb].
+    2:{ rewrite nth_error_nil'. reflexivity. }
+    destruct (nth_error img (N.to_nat pfn)) as [[c |] |] eqn:Hc.
+    - destruct (page_in_window decompress rd 0 l pages img Hwf Hst Hsize rd_single pfn c (conj Hs He) Hc)
+        as [pos [Hpos Hpage]].
+      rewrite Hpos. exact Hpage.
+    - rewrite (pdpos_none decompress 0 l pages img Hwf Hst Hsize pfn); [reflexivity |].
+      pose proof (Forall2_nth_error _ _ _ Hst (N.to_nat pfn)) as R. rewrite Hc in R.
+      destruct (nth_error pages (N.to_nat pfn)) as [[p |] |]; [contradiction | exact I | exact I].
+    - rewrite (pdpos_none decompress 0 l pages img Hwf Hst Hsize pfn); [reflexivity |].
+      pose proof (Forall2_nth_error _ _ _ Hst (N.to_nat pfn)) as R. rewrite Hc in R.
+      destruct (nth_error pages (N.to_nat pfn)) as [[p |] |]; [contradiction | contradiction | exact I].
+  Qed.
+
+  (** the usual case: the file is the whole dump *)
+  Theorem read_page_spec z pfn :
+    dl_split l = false ->
+    dd_read_page rd decompress expected_state z pfn =
+    spec_read_page img (dl_page_size l) (dl_max_mapnr l) z pfn.
+  Proof.
+    intro Hns. rewrite single_read_page. unfold win_start, win_end. rewrite Hns.
+    unfold spec_read_page. destruct (N.leb_spec (dl_max_mapnr l) pfn); [reflexivity |].
+    pose proof (wf_mapnr64 _ _ Hwf).
+    destruct (N.leb_spec 0 pfn); [| lia]. destruct (N.ltb_spec pfn (2^64 - 1)); [| lia]. reflexivity.
+  Qed.
+End Single.
+
 
 Theorem diskdump_geometry decompress l pages img :
   dd_wf l img -> Forall2 (stores decompress) pages img -> len (encode_dd l pages) < 2^64 ->
@@ -775,20 +1249,65 @@ Theorem diskdump_geometry decompress l pages img :
     dd_page_size st = dl_page_size l /\ dd_max_pfn st = dl_max_mapnr l.
 Proof.
   intros Hwf Hst Hsz. exists (expected_state l pages). split.
-  - exact (open_spec decompress l pages img Hwf Hst Hsz).
+  - exact (single_open l pages img Hwf Hsz).
   - repeat split.
 Qed.
 
 Theorem diskdump_roundtrip decompress l pages img :
-  dd_wf l img -> Forall2 (stores decompress) pages img -> len (encode_dd l pages) < 2^64 ->
+  dd_wf l img -> dl_split l = false ->
+  Forall2 (stores decompress) pages img -> len (encode_dd l pages) < 2^64 ->
   exists st, dd_open (read_files [encode_dd l pages]) 1 = Ok st /\
     forall zero_excluded pfn,
       dd_read_page (read_files [encode_dd l pages]) decompress st zero_excluded pfn =
       spec_read_page img (dl_page_size l) (dl_max_mapnr l) zero_excluded pfn.
 Proof.
+  intros Hwf Hns Hst Hsz. exists (expected_state l pages). split.
+  - exact (single_open l pages img Hwf Hsz).
+  - intros z pfn. exact (read_page_spec decompress l pages img Hwf Hst Hsz z pfn Hns).
+Qed.
+
+(** one member of a split set, opened on its own *)
+Theorem diskdump_member_roundtrip decompress l pages img :
+  dd_wf l img -> Forall2 (stores decompress) pages img -> len (encode_dd l pages) < 2^64 ->
+  exists st, dd_open (read_files [encode_dd l pages]) 1 = Ok st /\
+    forall zero_excluded pfn,
+      dd_read_page (read_files [encode_dd l pages]) decompress st zero_excluded pfn =
+      spec_read_page (if (win_start l <=? pfn) && (pfn <? win_end l) then img else [])
+                     (dl_page_size l) (dl_max_mapnr l) zero_excluded pfn.
+Proof.
   intros Hwf Hst Hsz. exists (expected_state l pages). split.
-  - exact (open_spec decompress l pages img Hwf Hst Hsz).
-  - intros z pfn. exact (read_page_spec decompress l pages img Hwf Hst Hsz z pfn).
+  - exact (single_open l pages img Hwf Hsz).
+  - intros z pfn. exact (single_read_page decompress l pages img Hwf Hst Hsz z pfn).
+Qed.
+
+(** a split set, the files given in any order *)
+Theorem diskdump_split_roundtrip decompress l ws pages img :
+  ws <> [] ->
+  (forall w, In w ws -> dd_wf (with_window l w) img) ->
+  Forall2 (stores decompress) pages img ->
+  (forall w, In w ws -> len (encode_dd (with_window l w) pages) < 2^64) ->
+  windows_ok ws (dl_max_mapnr l) ->
+  exists st, dd_open (read_files (encode_dd_set l ws pages)) (length ws) = Ok st /\
+    dd_be st = dl_be l /\ dd_ptr_size st = (if dl_64 l then 8 else 4) /\
+    dd_page_size st = dl_page_size l /\ dd_max_pfn st = dl_max_mapnr l /\
+    forall zero_excluded pfn,
+      dd_read_page (read_files (encode_dd_set l ws pages)) decompress st zero_excluded pfn =
+      spec_read_page img (dl_page_size l) (dl_max_mapnr l) zero_excluded pfn.
+Proof.
+  intros Hne Hwf Hst Hsz Hws. exists (set_state l ws pages). split.
+  - exact (set_open l ws pages img Hwf Hsz Hws Hne).
+  - repeat split. intros z pfn. exact (set_read_page decompress l ws pages img Hwf Hst Hsz Hws z pfn).
+Qed.
+
+Lemma windows_ok_perm ws ws' m : Permutation.Permutation ws ws' -> windows_ok ws m -> windows_ok ws' m.
+Proof.
+  intros Hp [H1 [H2 [H3 H4]]]. pose proof (Permutation.Permutation_sym Hp) as Hp'.
+  repeat split.
+  - intros w Hw. apply H1. now apply (Permutation.Permutation_in _ Hp').
+  - now apply (Permutation.Permutation_NoDup Hp).
+  - intros wi wj Hi Hj. apply H3; now apply (Permutation.Permutation_in _ Hp').
+  - intros pfn Hpfn. destruct (H4 pfn Hpfn) as [w [Hw Hr]]. exists w. split; [| exact Hr].
+    now apply (Permutation.Permutation_in _ Hp).
 Qed.
 
 (** what the spec says, spelled out: present pages come back byte for byte,
@@ -829,7 +1348,8 @@ Proof.
 Qed.
 
 Theorem diskdump_read_range decompress l pages img :
-  dd_wf l img -> Forall2 (stores decompress) pages img -> len (encode_dd l pages) < 2^64 ->
+  dd_wf l img -> dl_split l = false ->
+  Forall2 (stores decompress) pages img -> len (encode_dd l pages) < 2^64 ->
   exists st, dd_open (read_files [encode_dd l pages]) 1 = Ok st /\
     forall zero_excluded addr n, addr + n <= 2^64 ->
       let '(status, data) := dd_read (read_files [encode_dd l pages]) decompress st zero_excluded addr n in
@@ -841,7 +1361,7 @@ Theorem diskdump_read_range decompress l pages img :
           spec_read_page img (dl_page_size l) (dl_max_mapnr l) zero_excluded
                          ((addr + N.of_nat m) / dl_page_size l) = Err status)).
 Proof.
-  intros Hwf Hst Hsz. exists (expected_state l pages). split; [exact (open_spec decompress l pages img Hwf Hst Hsz) |].
+  intros Hwf Hns Hst Hsz. exists (expected_state l pages). split; [exact (single_open l pages img Hwf Hsz) |].
   intros z addr n Hr. unfold dd_read.
   pose proof (pgsz_bounds l img Hwf) as Hpb.
   pose proof (read_range_spec (dd_get_page (read_files [encode_dd l pages]) decompress z)
@@ -855,7 +1375,7 @@ Proof.
             (fun st => st = expected_state l pages)
               (snd (dd_get_page (read_files [encode_dd l pages]) decompress z st a))).
   { intros st a Hs _. cbn beta in Hs. subst st. unfold dd_get_page. cbn [fst snd dd_page_size expected_state].
-    split; [apply (read_page_spec decompress l pages img Hwf Hst Hsz) | reflexivity]. }
+    split; [apply (read_page_spec decompress l pages img Hwf Hst Hsz _ _ Hns) | reflexivity]. }
   specialize (H Hget).
   specialize (H (fun k c => spec_read_page_len img _ _ z k c (wf_pages _ _ Hwf))).
   specialize (H (expected_state l pages) addr n eq_refl Hr).
